@@ -459,9 +459,9 @@ class C10(Prop):
 
 class C07(Prop):
     id = "C07"; module = "Adsb.Theorems.C07"; design_ref = "5/C07"
-    modules = ["Adsb.Theorems.C07", "Adsb.Theorems.C07b", "Adsb.Theorems.C06b", "Adsb.Theorems.C10b"]
+    modules = ["Adsb.Theorems.C07", "Adsb.Theorems.C07b", "Adsb.Theorems.C07c", "Adsb.Theorems.C06b", "Adsb.Theorems.C10b"]
     deps = ["layout:struct AirborneVelocity", "layout:enum AirborneVelocitySubType", "layout:struct GroundSpeedDecoding", "layout:struct AirspeedDecoding",
-            "shape:AirborneVelocity::calculate", "layout:enum Sign", "layout:enum VerticalRateSource"]
+            "layout:enum Sign", "layout:enum VerticalRateSource"]     # calculate() itself is translated (Gen/VelFn.lean) and re-proved (Theorems/C07c), not tied as text
     tol = 2e-6
     rule = ("direction bits x boundary-biased 10-bit components (0,1,2,3,511,512,1022,1023 + stratified; thorough: all 2^22), all 2^11 vertical-rate codes, "
             "all 8 subtypes, all airspeed/heading/NACv/difference codes; field sweeps of every type-19 field; heading/speed compared numerically "
@@ -554,7 +554,7 @@ TRACKER_ATTR = ["fn:rsadsb_common/lib.rs::Airplanes::add_identification", "fn:rs
 class TrackerProp(Prop):
     stateful = True
     # the functions of the tracker crate the model was written against (text tie, besides the differential correspondence)
-    deps = ["shape:AirborneVelocity::calculate"] + TRACKER_BASE
+    deps = TRACKER_BASE
     technique = "Lean 4 theorems (induction over histories, invariants) over a model of the tracker generic in geometry and clock + differential correspondence on generated histories + reference oracle"
     histories = (60, 150)
     def ops(self, rng, tier):
@@ -623,6 +623,7 @@ class C13(TrackerProp):
 
 class C14(TrackerProp):
     id = "C14"; module = "Adsb.Theorems.C14"; design_ref = "5/C14"
+    modules = ["Adsb.Theorems.C14", "Adsb.Theorems.C07c"]     # the derived velocity the tracker stores: calculate() as translated from the source
     deps = TrackerProp.deps + TRACKER_POS + TRACKER_ATTR
     rule = C12.rule
     claim = "callsign / velocity latest-wins, altitude of a stored report, details iff position+altitude+distance, position list = records with a position, distance iff position (invariant), track = previously published positions in order"
